@@ -195,27 +195,64 @@ def scan(module):
                 elif t is ir.FunctionCall or t is ir.ProcedureCall:
                     direct = isinstance(i.callee, (ir.SubRoutine, ir.ExternalSubRoutine))
                     bump(kinds, "callee." + ("direct" if direct else "indirect"))
-                # forward references of non-phi operands
+                # forward references
                 if t is not ir.Phi:
                     for fld, v in ircmp.operand_fields(i):
                         if v in pos and pos[v] > pos[i]:
                             bump(kinds, "fwdref." + t.__name__)
-                            if t is ir.Binop:
-                                if i.ty is not ir.i32:
-                                    trig.add("fwd-binop-non-i32")
-                                if i.ty is not ir.ptr:
-                                    trig.add("fwd-binop-non-ptr")
-                            elif t is ir.Unop:
-                                trig.add("fwd-unop")
-                            elif t is ir.AddressOf:
-                                trig.add("fwd-addressof")
                 else:
                     for blk, v in i.inputs.items():
-                        if v in pos and pos[v] > pos[i]:
+                        if v in pos and pos[v] >= pos[i]:
                             bump(kinds, "fwdref.Phi")
                         if isinstance(v, ir.Undefined):
                             bump(kinds, "undefined.phi-input")
+        for mode in ("text", "json"):
+            if placeholder_conflict(f, pos, mode):
+                trig.add("fwd-conflict-" + mode)
     return kinds, trig
+
+
+def placeholder_conflict(f, pos, mode):
+    """Would the (unrepaired) reader give the placeholder of a not yet defined
+    value a type that a type-checking constructor then rejects?  A static walk
+    over the INPUT in listing order that mirrors how placeholders are typed:
+    text reader: binary operands i32, phi inputs the phi's type, address-of
+    source a blob, everything else ptr; JSON reader: phi inputs the phi's
+    type, everything else ptr; the first use creates the placeholder, later
+    uses get the same object.  Strict users: Binop, Unop (operand type = result
+    type), Phi (input type = phi type), AddressOf (blob), Load/Store address
+    and callee (ptr)."""
+    placeholder = {}
+    for b in f.blocks:
+        for i in b.instructions:
+            t = type(i)
+            if t is ir.Phi:
+                ops = [("phi", v) for v in i.inputs.values()]
+            else:
+                ops = ircmp.operand_fields(i)
+            for fld, v in ops:
+                # (a phi that feeds itself is looked up before it is registered)
+                if not (v in pos and pos[v] >= pos[i]):
+                    continue
+                strict = None          # what the constructor insists on: a type, "blob", or None
+                created = ir.ptr
+                if t is ir.Binop:
+                    strict = i.ty
+                    created = ir.i32 if mode == "text" else ir.ptr
+                elif t is ir.Unop:
+                    strict = i.ty
+                elif t is ir.Phi:
+                    strict = created = i.ty
+                elif t is ir.AddressOf:
+                    strict = "blob"
+                    if mode == "text":
+                        created = "blob"
+                elif (t is ir.Load and fld == "address") or (t is ir.Store and fld == "address") or fld == "callee":
+                    strict = ir.ptr
+                have = placeholder.setdefault(v, created)
+                if strict is not None and have is not strict:
+                    return True
+    return False
 
 
 def tyname(ty):
@@ -299,7 +336,7 @@ def neutralise(module, triggers):
                     i.remove_from_block()
                 elif t is ir.InlineAsm and "inline-asm" in triggers:
                     i.remove_from_block()
-        if triggers & {"fwd-binop-non-i32", "fwd-binop-non-ptr", "fwd-unop", "fwd-addressof"}:
+        if triggers & {"fwd-conflict-text", "fwd-conflict-json"}:
             irgen.rpo_blocks(f)
 
 
@@ -650,9 +687,88 @@ def directed_names():
     return m
 
 
+def directed_undefined_phi():
+    """what mem2reg leaves for `int x; if (p > 0) x = 7; if (p > 0) return x; return 0;`"""
+    m = ir.Module("undphi")
+    f, (p,) = _fn(m, "f", ir.i32, [ir.i32])
+    entry, then, join, yes, no = _blocks(f, ["entry", "then", "join", "yes", "no"])
+    und = ir.Undefined("und_x", ir.i32)
+    entry.add_instruction(und)
+    zero = ir.Const(0, "zero", ir.i32)
+    entry.add_instruction(zero)
+    entry.add_instruction(ir.CJump(p, ">", zero, then, join))
+    seven = ir.Const(7, "seven", ir.i32)
+    then.add_instruction(seven)
+    then.add_instruction(ir.Jump(join))
+    phi = ir.Phi("x", ir.i32)
+    join.add_instruction(phi)
+    phi.set_incoming(entry, und)
+    phi.set_incoming(then, seven)
+    join.add_instruction(ir.CJump(p, ">", zero, yes, no))
+    yes.add_instruction(ir.Return(phi))
+    no.add_instruction(ir.Return(zero))
+    return m
+
+
+def directed_mixed_forward(ty):
+    """a value referenced before its definition first by an untyped user
+    (store / cast / call argument), then by a typed one (phi, binop)"""
+    m = ir.Module("mixfwd")
+    f, (p,) = _fn(m, "f", ty, [ty])
+    entry, head, body = _blocks(f, ["entry", "head", "body"])
+    al = ir.Alloc("al", 8, 8)
+    entry.add_instruction(al)
+    ad = ir.AddressOf(al, "ad")
+    entry.add_instruction(ad)
+    entry.add_instruction(ir.Jump(body))
+    # head is listed before body but runs after it
+    nxt = ir.Binop(p, "+", p, "nxt", ty)
+    head.add_instruction(ir.Store(nxt, ad))
+    c = ir.Cast(nxt, "c", ty)
+    head.add_instruction(c)
+    t = ir.Binop(nxt, "+", c, "t", ty)
+    head.add_instruction(t)
+    head.add_instruction(ir.Return(t))
+    body.add_instruction(nxt)
+    body.add_instruction(ir.Jump(head))
+    return m
+
+
+def directed_selfphi_forward(ty):
+    """blocks listed [entry, after, head]: `after` uses (untyped) a phi of
+    `head` that also feeds itself"""
+    m = ir.Module("selfphi")
+    f, (p, n) = _fn(m, "f", ir.i32, [ty, ir.i32])
+    entry, after, head = _blocks(f, ["entry", "after", "head"])
+    zero = ir.Const(0, "zero", ir.i32)
+    entry.add_instruction(zero)
+    one = ir.Const(1, "one", ir.i32)
+    entry.add_instruction(one)
+    entry.add_instruction(ir.Jump(head))
+    acc = ir.Phi("acc", ty)
+    i = ir.Phi("i", ir.i32)
+    ci = ir.Cast(acc, "ci", ir.i32)
+    after.add_instruction(ci)
+    after.add_instruction(ir.Return(ci))
+    head.add_instruction(acc)
+    head.add_instruction(i)
+    i2 = ir.Binop(i, "+", one, "i2", ir.i32)
+    head.add_instruction(i2)
+    acc.set_incoming(entry, p)
+    acc.set_incoming(head, acc)
+    i.set_incoming(entry, zero)
+    i.set_incoming(head, i2)
+    head.add_instruction(ir.CJump(i2, "<", n, head, after))
+    return m
+
+
 def directed_cases():
     """-> [(case id, build)]"""
-    out = []
+    out = [("directed/undefined-phi", directed_undefined_phi)]
+    for ty in (ir.u8, ir.i64, ir.f32):
+        out.append(("directed/forward/selfphi/%s" % ty.name, (lambda ty=ty: directed_selfphi_forward(ty))))
+    for ty in (ir.u8, ir.i32, ir.f64, ir.ptr):
+        out.append(("directed/forward/mixed/%s" % ty.name, (lambda ty=ty: directed_mixed_forward(ty))))
     kinds = ["binop", "unop", "cast", "return", "load", "call", "store", "addressof", "memcpy", "cjump"]
     for kind in kinds:
         tys = ALL_TYPES + ([ir.ptr] if kind in ("binop", "cast", "return", "load", "call", "store", "cjump") else [])
